@@ -97,6 +97,9 @@ fn wait(pid: i32) -> i32 {
     st
 }
 
+/// Wall-clock budget of one scenario (a typical one takes milliseconds, the largest a few seconds).
+pub const SCENARIO_TIMEOUT_MS: i32 = 90_000;
+
 /// Runs `f` in a forked child and returns its (serialised) result.
 /// `Err` = the child died (abort, stack overflow, kill): reported to the caller.
 pub fn in_child<T: Serialize + DeserializeOwned>(f: impl FnOnce() -> T) -> Result<T, String> {
@@ -116,6 +119,24 @@ pub fn in_child<T: Serialize + DeserializeOwned>(f: impl FnOnce() -> T) -> Resul
         unsafe { libc::_exit(0) };
     }
     unsafe { libc::close(fds[1]) };
+    // hang protection: the child writes its result only when it is done; if nothing arrives
+    // within the budget the code under test is looping (or blocked) and the child is killed
+    let mut pfd = libc::pollfd { fd: fds[0], events: libc::POLLIN, revents: 0 };
+    let ready = loop {
+        let r = unsafe { libc::poll(&mut pfd, 1, SCENARIO_TIMEOUT_MS) };
+        if r < 0 && std::io::Error::last_os_error().kind() == std::io::ErrorKind::Interrupted {
+            continue;
+        }
+        break r;
+    };
+    if ready == 0 {
+        unsafe {
+            libc::kill(pid, libc::SIGKILL);
+            libc::close(fds[0]);
+        }
+        wait(pid);
+        return Err(format!("timeout: the scenario did not finish within {} s", SCENARIO_TIMEOUT_MS / 1000));
+    }
     let bytes = read_to_end(fds[0]);
     unsafe { libc::close(fds[0]) };
     let st = wait(pid);
